@@ -103,6 +103,16 @@ Theorem C07_source_recording_is_model : forall (rg : RG) (rp : RP) sp k s,
 Proof. intros. split; [apply gen_run_conditional_decorators_is_model|apply gen_invoke_step_is_model]. Qed.
 Print Assumptions C07_source_recording_is_model.
 
+(** the entry itself, read from the source ([Step.save_error]): the mapping literal with its eight
+    keys in source order — canonical name, message, formatted onError payload (an absent or falsy
+    onError gives {}; the payload is formatted before anything is written, so a formatting error
+    leaves runErrors untouched), line, col (None for a bare-name step), step name, the exception
+    object, swallowed — appended to the list under runErrors (created when absent). *)
+Theorem C07_source_entry_is_model : forall sp name msg eid sw s,
+  gen_save_error sp (ORaise (RExn name msg eid)) sw s = save_error sp name msg eid sw s.
+Proof. exact gen_save_error_is_model. Qed.
+Print Assumptions C07_source_entry_is_model.
+
 (** * Non-vacuity: failure two calls deep, both callers swallow / retry *)
 Definition S (nm : string) (b : body) (inn : dict) (sw : val) (rt : option rcfg) (oe : option val) : step :=
   mkstep nm b (Some inn) None None rt (VBool true) (VBool false) sw oe (Some (3, 5)%Z) None.
